@@ -79,6 +79,7 @@ def find_fn(text, name, nth=0):
 class Parser:
     def __init__(self, toks):
         self.t, self.i = toks, 0
+        self.nostruct = False
 
     def peek(self, k=0):
         return self.t[self.i + k]
@@ -326,6 +327,14 @@ class Parser:
             else:
                 return e
 
+    def head_expr(self):
+        """Expression in `if`/`match` head position: no struct literals (as in Rust)."""
+        old, self.nostruct = self.nostruct, True
+        try:
+            return self.expr()
+        finally:
+            self.nostruct = old
+
     def primary(self):
         k, v = self.peek()
         if k == "num":
@@ -359,13 +368,13 @@ class Parser:
                 self.i += 1
                 pat = self.pattern()
                 self.expect("=")
-                scrut = self.expr()
+                scrut = self.head_expr()
                 then = self.block()
                 els = None
                 if self.eat("else"):
                     els = self.primary() if self.at("if") else self.block()
                 return ("iflet", pat, scrut, then, els)
-            c = self.expr()
+            c = self.head_expr()
             then = self.block()
             els = None
             if self.eat("else"):
@@ -373,7 +382,7 @@ class Parser:
             return ("if", c, then, els)
         if v == "match":
             self.i += 1
-            scrut = self.expr()
+            scrut = self.head_expr()
             self.expect("{")
             arms = []
             while not self.at("}"):
@@ -409,6 +418,21 @@ class Parser:
                         if depth == 0:
                             break
                 return ("macro", path)
+            if self.at("{") and not self.nostruct and path[-1][0].isupper() and self.peek(1)[0] == "id" \
+                    and self.peek(2)[1] in (":", ",", "}"):
+                self.i += 1
+                fields = []
+                old, self.nostruct = self.nostruct, False
+                while not self.at("}"):
+                    f = self.ident()
+                    if self.eat(":"):
+                        fields.append((f, self.expr()))
+                    else:
+                        fields.append((f, ("path", [f])))
+                    self.eat(",")
+                self.nostruct = old
+                self.expect("}")
+                return ("struct", path, fields)
             return ("path", path)
         raise Unsupported("expression starting with %r" % v)
 
@@ -631,6 +655,10 @@ class Emitter:
                 s, e[2], lambda body: self.tr(body, k2))))
         if kind == "unit":
             return k("tt")
+        if kind == "struct":
+            names = [f for f, _ in e[2]]
+            return self.tr_list([x for _, x in e[2]], lambda vs: k(
+                "{| " + "; ".join("f_%s := %s" % (n, v) for n, v in zip(names, vs)) + " |}"))
         raise Unsupported("expression kind %s" % kind)
 
     def match_pure(self, e):
@@ -732,7 +760,7 @@ class Emitter:
 
 
 COQ_TYPES = {"i32": "Z", "u32": "Z", "i64": "Z", "u64": "Z", "usize": "Z", "isize": "Z", "InlineInt": "Z", "BigInt": "Z",
-             "bool": "bool", "Value": "value", "StarlarkIntRef": "rep", "StarlarkInt": "rep", "StarlarkHashValue": "Z", "Range": "range", "StarlarkBigInt": "Z"}
+             "bool": "bool", "Value": "value", "StarlarkIntRef": "rep", "StarlarkInt": "rep", "StarlarkHashValue": "Z", "Range": "range", "StarlarkBigInt": "Z", "Span": "span", "Pos": "Z"}
 
 
 def coq_type(t, cfg):
